@@ -14,6 +14,9 @@ TYPE_EDITS = {
     "scalar_to_array": ("int", "!array {items: int}"),
     "vector_to_scalar": ("!vector {items: int}", "int"),
     "change_generic_argument": ("G<int>", "G<float>"),
+    # used by C05 only (value conversions); C06 takes its edit list from Evolution.tla
+    "uint_to_int": ("uint", "int"),
+    "ulong_to_long": ("ulong", "long"),
 }
 
 BASE_DEFS = """Color: !enum
@@ -51,6 +54,8 @@ def wrap(pos, t):
         return "", "!stream {items: [null, %s]}" % t
     if pos == "optional_vector":
         return "", "[null, !vector {items: %s}]" % t
+    if pos == "vector_of_vector":
+        return "", "!vector {items: !vector {items: %s}}" % t
     if pos == "field_of_nested_record":
         return "ProbeRec: !record\n  fields:\n    k: int\n    p: %s\nOuterProbe: !record\n  fields:\n    o: ProbeRec\n    z: string\n" % t, "OuterProbe"
     raise KeyError(pos)
